@@ -64,40 +64,37 @@ theorem appScope_sound (cs : List (Cav B)) :
           prohibits (.apps rs : Cav B) a = []) :=
   ⟨fun L h => appScope_some_sound cs L h, fun h => appScope_none_sound cs h⟩
 
-/-! ### cluster scope (partial: finding F11) -/
+/-! ### cluster scope (F11 repaired) -/
 
-/-- `ClusterScope`, the part of the property that holds.  A list `L` was returned: (1) *provided
-the wildcard id `""` is not in `L`*, every cluster id left out is denied by the whole set for every
-request naming it; (2) every id in `L` clears every `Clusters` caveat anywhere in the set at the
-empty action; (3) if `""` is in `L` then `L` holds nothing else, every `Clusters` caveat is a lone
-wildcard entry and every cluster id clears them all — the answer should have been "unrestricted".
-Nil was returned: (4) the set holds no `Clusters` caveat at all.
-Missing for the full clause "ids left out would not clear": the case `"" ∈ L`, where it is false
-(`clusterScope_left_out_may_clear`). -/
-theorem clusterScope_sound_partial (cs : List (Cav B)) :
+/-- `ClusterScope` (after the repair of F11 it mirrors `AppScope`).  A list `L` was returned:
+(1) every cluster id left out is denied by the whole set for every request naming it; (2) every id
+in `L` clears every `Clusters` caveat anywhere in the set at the empty action.  "Unrestricted" (nil)
+was returned: (3) every cluster id clears every `Clusters` caveat anywhere in the set at the empty
+action (each of them is a lone wildcard entry, or there is none). -/
+theorem clusterScope_sound (cs : List (Cav B)) :
     (∀ L, clusterScope cs = some L →
-      (([] : Bytes) ∉ L → ∀ id, id ∉ L → ∀ a : Access, a.cluster = some (some id) → validate cs [a] ≠ []) ∧
+      (∀ id, id ∉ L → ∀ a : Access, a.cluster = some (some id) → validate cs [a] ≠ []) ∧
       (∀ id ∈ L, ∀ rs, Nested (.clusters rs : Cav B) cs → ∀ a : Access, a.cluster = some (some id) →
-          a.action = some Action.none → prohibits (.clusters rs : Cav B) a = []) ∧
-      (([] : Bytes) ∈ L → (∀ id ∈ L, id = []) ∧
-        ∀ rs, Nested (.clusters rs : Cav B) cs → (∃ m, rs = [(([] : Bytes), m)]) ∧
-          ∀ id, ∀ a : Access, a.cluster = some (some id) → a.action = some Action.none →
-            prohibits (.clusters rs : Cav B) a = [])) ∧
-    (clusterScope cs = none → ∀ c, Nested c cs → isClusters c = false) :=
-  ⟨fun L h => clusterScope_some_sound cs L h, fun h => clusterScope_none_sound cs h⟩
+          a.action = some Action.none → prohibits (.clusters rs : Cav B) a = [])) ∧
+    (clusterScope cs = none →
+      ∀ rs, Nested (.clusters rs : Cav B) cs → (∃ m, rs = [(([] : Bytes), m)]) ∧
+        ∀ id, ∀ a : Access, a.cluster = some (some id) → a.action = some Action.none →
+          prohibits (.clusters rs : Cav B) a = []) :=
+  Lemmas.clusterScope_sound cs
 
 /-- the request `&flyio.Access{OrgID: 1, Feature: "litefs-cloud", Cluster: "abc", Action: read}` -/
 def f11Request : Req :=
   { Req.zero with action := Action.read, org := some 1, feature := some featureLFSC, cluster := some [97, 98, 99] }
 
-/-- F11, the negation of the clause for `ClusterScope`: for the set `[Clusters{"": all}]` the helper
-returns the list `[""]`; cluster `"abc"` is left out of it, yet a well-formed request for cluster
-`"abc"` clears the set. -/
-theorem clusterScope_left_out_may_clear :
+/-- F11 (repaired), the behaviour of the code before the repair kept as a negative example:
+`clusterScopePreFix` (no wildcard case) returned the list `[""]` for the set `[Clusters{"": all}]`;
+cluster `"abc"` is left out of it, yet a well-formed request for cluster `"abc"` clears the set —
+the clause "ids left out would not clear" failed. -/
+theorem preFix_clusterScope_left_out_may_clear :
     ∃ (cs : List (Cav Bytes)) (L : List Bytes) (id : Bytes) (a : Access),
-      clusterScope cs = some L ∧ id ∉ L ∧ a.cluster = some (some id) ∧ validate cs [a] = [] := by
+      clusterScopePreFix cs = some L ∧ id ∉ L ∧ a.cluster = some (some id) ∧ validate cs [a] = [] := by
   refine ⟨[.clusters [([], Action.all)]], [[]], [97, 98, 99], f11Request.toAccess 0 0, ?_, ?_, rfl, ?_⟩
-  · simp [clusterScope, getCaveats, unwrapGet, isClusters, clusterKeys, sortDedup, insertSorted, clears,
+  · simp [clusterScopePreFix, getCaveats, unwrapGet, isClusters, clusterKeys, sortDedup, insertSorted, clears,
       validate, validateAccess, Cav.isAttestation, prohibits, viaGetter, Req.toAccess, clusterReq, Req.zero,
       Flyio.validate, cnt, ResSet.prohibitsStr, ResSet.prohibits, ResSet.mixedWildcard, ResSet.matching,
       ResSet.perm, Action.subset]
@@ -105,6 +102,14 @@ theorem clusterScope_left_out_may_clear :
   · simp [validate, validateAccess, Cav.isAttestation, prohibits, viaGetter, Req.toAccess, f11Request, Req.zero,
       Flyio.validate, cnt, ResSet.prohibitsStr, ResSet.prohibits, ResSet.mixedWildcard, ResSet.matching,
       ResSet.perm, Action.subset, Action.all, Action.read] <;> decide
+
+/-- … and on that same set the repaired helper answers "unrestricted" -/
+theorem repaired_clusterScope_on_f11_witness :
+    clusterScope ([.clusters [([], Action.all)]] : List (Cav Bytes)) = none := by
+  simp [clusterScope, getCaveats, unwrapGet, isClusters, clusterKeys, sortDedup, insertSorted, clears,
+    validate, validateAccess, Cav.isAttestation, prohibits, viaGetter, Req.toAccess, clusterReq, Req.zero,
+    Flyio.validate, cnt, ResSet.prohibitsStr, ResSet.prohibits, ResSet.mixedWildcard, ResSet.matching,
+    ResSet.perm, Action.subset]
 
 /-! ### apps allowing an action -/
 
@@ -194,8 +199,9 @@ end Macaroon.Props.C17
 #print axioms Macaroon.Props.C17.nested_denial_denies_set
 #print axioms Macaroon.Props.C17.orgScope_sound
 #print axioms Macaroon.Props.C17.appScope_sound
-#print axioms Macaroon.Props.C17.clusterScope_sound_partial
-#print axioms Macaroon.Props.C17.clusterScope_left_out_may_clear
+#print axioms Macaroon.Props.C17.clusterScope_sound
+#print axioms Macaroon.Props.C17.preFix_clusterScope_left_out_may_clear
+#print axioms Macaroon.Props.C17.repaired_clusterScope_on_f11_witness
 #print axioms Macaroon.Props.C17.appsAllowing_sound
 #print axioms Macaroon.Props.C17.expiration_is_window_end
 #print axioms Macaroon.Props.C17.expiration_is_earliest
